@@ -294,13 +294,18 @@ class OpsMixin:
                 self.violate("C15.negative", f"pool_size = {v} raised ValueError")
             elif self.snapshot(pr) != snap:
                 self.violate("C15.negative", f"rejected pool_size = {v} changed the pool: {snap} -> {self.snapshot(pr)}")
+                self.violate("C09.no_trace", f"rejected pool_size = {v} changed the pool: {snap} -> {self.snapshot(pr)}")
+            else:
+                pr.neg_pending = True  # the rejected assignment must not show later either (checked at the next task ending / quiescence)
             self.sit["C15.negative"] += 1
+            self.sit["C09.cause.pool_size.ValueError" + (".oversubscribed" if (pr.size is not None and pr.L > pr.size) else "")] += 1
             return
         except Exception as e:  # noqa: BLE001
             self.violate("C15.negative", f"pool_size = {v} raised {type(e).__name__}: {e}")
             return
         if v is not None and v < 0:
             self.violate("C15.negative", f"pool_size = {v} was accepted")
+            self.violate("C09.raises", f"pool_size = {v} was accepted")
             return
         pr.size = v
         pr.size_set_iter = self.loop.vf_iteration
@@ -777,7 +782,7 @@ class OpsMixin:
 
     # ------------------------------------------------------------ capacity probe
     async def capacity_probe(self, pr, final):
-        if pr.closed or pr.closing or self.viol:
+        if pr.closed or pr.closing or len(self.viol) >= self.max_viol:
             return
         if self.pending_work(pr) or pr.cb_in_progress or pr.flushes:
             self.sit["probe.skipped"] += 1
@@ -809,6 +814,12 @@ class OpsMixin:
         self.sit["C02.probe" + (".busy" if L else ".idle")] += 1
         if begun != expect:
             self.violate("C02.capacity", f"capacity probe: size={N} live={L}: asked for {want} gated tasks, {begun} started, expected {expect}")
+            if self.excs:
+                self.violate("C12.capacity", f"after injected failures: capacity probe: size={N} live={L}: asked for {want} gated tasks, {begun} started, expected {expect}")
+        elif self.excs:
+            self.sit["C12.capacity_ok_after_faults"] += 1
+        if False:
+            pass
         self.do_op({"op": "cancel_group", "pool": pr.idx, "sel": ["name", name]}, ("conductor",))
         pr.probe_mode = False
         await self.drain()
